@@ -198,6 +198,8 @@ func (Precompile).Delegate
             && g_limit == upd(old(g_limit), key, old(g_limit[key]) - amt) && g_limited == upd(old(g_limited), key, true)
     ensures spent_all: result.1 == nil && caller != origin && old(g_limited[key]) && amt == old(g_limit[key]) ==> g_kind == upd(old(g_kind), key, 0) && g_limit == old(g_limit) && g_limited == old(g_limited)
     ensures unlimited: result.1 == nil && caller != origin && !old(g_limited[key]) ==> g_kind == upd(old(g_kind), key, StakeTag()) && g_limited == upd(old(g_limited), key, false) && g_limit == old(g_limit)
+    // a grant that names validators (allow / deny list) covers the message's validator, whether or not the grant carries a spend limit
+    ensures allow_listed: result.1 == nil && caller != origin ==> val_allowed(ret(CheckAuthzAndAllowanceForGranter, 1, 0).Validators, val)
     ensures own_call: caller == origin ==> g_kind == old(g_kind) && g_exp == old(g_exp) && g_limited == old(g_limited) && g_limit == old(g_limit)
     // ---- C16: the call is the native message (exactly one state-changing keeper call, then event and balance mirror)
     ensures refused: !decoded || (del != origin && del != caller) ==> result.1 != nil && cstate == old(cstate) && sdb_delta == old(sdb_delta)
@@ -246,6 +248,8 @@ func (Precompile).Undelegate
             && g_limit == upd(old(g_limit), key, old(g_limit[key]) - amt) && g_limited == upd(old(g_limited), key, true)
     ensures spent_all: result.1 == nil && caller != origin && old(g_limited[key]) && amt == old(g_limit[key]) ==> g_kind == upd(old(g_kind), key, 0) && g_limit == old(g_limit) && g_limited == old(g_limited)
     ensures unlimited: result.1 == nil && caller != origin && !old(g_limited[key]) ==> g_kind == upd(old(g_kind), key, StakeTag()) && g_limited == upd(old(g_limited), key, false) && g_limit == old(g_limit)
+    // a grant that names validators (allow / deny list) covers the message's validator, whether or not the grant carries a spend limit
+    ensures allow_listed: result.1 == nil && caller != origin ==> val_allowed(ret(CheckAuthzAndAllowanceForGranter, 1, 0).Validators, val)
     ensures own_call: caller == origin ==> g_kind == old(g_kind) && g_exp == old(g_exp) && g_limited == old(g_limited) && g_limit == old(g_limit)
     // ---- C16: the call is the native message (exactly one state-changing keeper call, then event and balance mirror)
     ensures refused: !decoded || (del != origin && del != caller) ==> result.1 != nil && cstate == old(cstate)
@@ -283,6 +287,8 @@ func (Precompile).Redelegate
             && g_limit == upd(old(g_limit), key, old(g_limit[key]) - amt) && g_limited == upd(old(g_limited), key, true)
     ensures spent_all: result.1 == nil && caller != origin && old(g_limited[key]) && amt == old(g_limit[key]) ==> g_kind == upd(old(g_kind), key, 0) && g_limit == old(g_limit) && g_limited == old(g_limited)
     ensures unlimited: result.1 == nil && caller != origin && !old(g_limited[key]) ==> g_kind == upd(old(g_kind), key, StakeTag()) && g_limited == upd(old(g_limited), key, false) && g_limit == old(g_limit)
+    // a grant that names validators (allow / deny list) covers the message's validator, whether or not the grant carries a spend limit
+    ensures allow_listed: result.1 == nil && caller != origin ==> val_allowed(ret(CheckAuthzAndAllowanceForGranter, 1, 0).Validators, dst)
     ensures own_call: caller == origin ==> g_kind == old(g_kind) && g_exp == old(g_exp) && g_limited == old(g_limited) && g_limit == old(g_limit)
     // ---- C16: the call is the native message (exactly one state-changing keeper call, then event and balance mirror)
     ensures refused: !decoded || (del != origin && del != caller) ==> result.1 != nil && cstate == old(cstate)
@@ -322,6 +328,8 @@ func (Precompile).CancelUnbondingDelegation
             && g_limit == upd(old(g_limit), key, old(g_limit[key]) - amt) && g_limited == upd(old(g_limited), key, true)
     ensures spent_all: result.1 == nil && caller != origin && old(g_limited[key]) && amt == old(g_limit[key]) ==> g_kind == upd(old(g_kind), key, 0) && g_limit == old(g_limit) && g_limited == old(g_limited)
     ensures unlimited: result.1 == nil && caller != origin && !old(g_limited[key]) ==> g_kind == upd(old(g_kind), key, StakeTag()) && g_limited == upd(old(g_limited), key, false) && g_limit == old(g_limit)
+    // a grant that names validators (allow / deny list) covers the message's validator, whether or not the grant carries a spend limit
+    ensures allow_listed: result.1 == nil && caller != origin ==> val_allowed(ret(CheckAuthzAndAllowanceForGranter, 1, 0).Validators, val)
     ensures own_call: caller == origin ==> g_kind == old(g_kind) && g_exp == old(g_exp) && g_limited == old(g_limited) && g_limit == old(g_limit)
     // ---- C16: the call is the native message (exactly one state-changing keeper call, then event and balance mirror)
     ensures refused: !decoded || (del != origin && del != caller) ==> result.1 != nil && cstate == old(cstate)
